@@ -383,6 +383,16 @@ func (f *Frame) binop(ins *ssa.BinOp, st State) Term {
 				eq = strEqLit(x, constantString(c))
 			} else if c, ok := ins.X.(*ssa.Const); ok && c.Value != nil {
 				eq = strEqLit(y, constantString(c))
+			} else if pa, ok := f.vc.strProv[x.S]; ok {
+				if pb, ok := f.vc.strProv[y.S]; ok {
+					// string(a) == string(b)  ⟺  a and b hold the same bytes
+					i := Term{"i", SInt}
+					eq = And(Eq(pa.n, pb.n), Forall([]Term{i}, Implies(And(Le(IntLit(0), i), Lt(i, pa.n)),
+						Eq(f.w.Sorts.Elt(pa.arr, pa.off, i), f.w.Sorts.Elt(pb.arr, pb.off, i))),
+						[]Term{f.w.Sorts.Elt(pa.arr, pa.off, i)}, []Term{f.w.Sorts.Elt(pb.arr, pb.off, i)}))
+				} else {
+					eq = Eq(x, y)
+				}
 			} else {
 				eq = Eq(x, y)
 			}
@@ -771,6 +781,10 @@ func (f *Frame) convert(ins *ssa.Convert, st State) (Val, State) {
 				vc.Assume(Implies(st.PC, Eq(StrLen(r), SLen(x.T))))
 				vc.Assume(Forall([]Term{i}, Implies(And(st.PC, Le(IntLit(0), i), Lt(i, SLen(x.T))),
 					Eq(StrAt(r, i), f.w.Sorts.Elt(Sel(m, SArr(x.T)), SOff(x.T), i))), []Term{StrAt(r, i)}))
+				if vc.strProv == nil {
+					vc.strProv = map[string]strProvenance{}
+				}
+				vc.strProv[r.S] = strProvenance{arr: vc.Alias("sarr", Sel(m, SArr(x.T))), off: vc.Alias("soff", SOff(x.T)), n: vc.Alias("slen", SLen(x.T))}
 				return Val{T: r}, st
 			}
 			// []rune → string: contents unknown
